@@ -43,6 +43,9 @@ def main():
         # re-exec once so that hashing order is deterministic and nothing is written into the repo
         env = dict(os.environ, PYTHONHASHSEED='0', PYTHONDONTWRITEBYTECODE='1')
         os.execve(sys.executable, [sys.executable, '-X', 'faulthandler'] + sys.argv, env)
+    import resource
+    lim = int(os.environ.get('VERIF_MEM_GB', '12')) << 30
+    resource.setrlimit(resource.RLIMIT_AS, (lim, lim))       # a runaway case must die, not take the machine down
     modname = find_check(pid)
     mon.bind_repo()
     mod = importlib.import_module(modname)
